@@ -144,6 +144,12 @@ static inline void fn_invoke(fn_t tok, int ec, size_t n)
 #define POSTED_NONE (g_posted_count == OLD(g_posted_count))
 #define POSTED_ONE(t, e, cnt, k) (g_posted_count == OLD(g_posted_count) + 1 && g_posted_last.tok == (t) && \
      g_posted_last.ec == (e) && g_posted_last.n == (cnt) && g_posted_last.kind == (k))
+/* the closure posted as number OLD(count)+k of this call (pointwise at G_i); requires g_posted_count < 2^40 */
+#define POSTED_AT(k, t, e, cnt) ((G_i == OLD(g_posted_count) + (size_t)(k)) ? (g_posted_at_Gi.tok == (t) && g_posted_at_Gi.ec == (e) && g_posted_at_Gi.n == (size_t)(cnt) && g_posted_at_Gi.kind == CK_owned) : 1)
+/* the log entry observed at G_i is not rewritten by later posts */
+#define POSTED_LOG_KEPT ((G_i == OLD(g_posted_count) && g_posted_count != OLD(g_posted_count)) ? 1 : (g_posted_at_Gi.tok == OLD(g_posted_at_Gi.tok) && g_posted_at_Gi.ec == OLD(g_posted_at_Gi.ec) && g_posted_at_Gi.n == OLD(g_posted_at_Gi.n) && g_posted_at_Gi.kind == OLD(g_posted_at_Gi.kind)))
+#define POSTED_N(n) (g_posted_count == OLD(g_posted_count) + (size_t)(n))
+#define EVENT_SMALL (g_posted_count < ((size_t)1 << 40) && G_i < ((size_t)1 << 41))
 #define NO_INLINE (g_inline_calls == OLD(g_inline_calls))
 #define NO_DESTROY (g_destroyed == OLD(g_destroyed))
 
